@@ -70,7 +70,7 @@ m = {
   {"name": "seqx", "path": "harness/seqx", "serves_properties": ["C01", "C03", "C04", "C08", "C09", "C10", "C11"], "kind_free_text": "explicit-state BFS over handle histories; each transition re-executes the history on the real crate under the arena allocator and compares with a reference model"},
   {"name": "gridx", "path": "harness/gridx", "serves_properties": ["C03", "C08", "C05", "C06", "C07", "C10", "C11", "C12", "C14", "C15", "C16", "C17"], "kind_free_text": "exhaustive enumeration of finite shape / input / fault grids, each cell executed on the real crate under the arena allocator"},
   {"name": "typex", "path": "lib/typex.py", "serves_properties": ["C13"], "kind_free_text": "generator of client probe crates + cargo check driver; rustc decides each cell"},
-  {"name": "mwalk", "path": "harnessm", "serves_properties": ["C01"], "kind_free_text": "every operation sequence up to depth 3/5 over every handle kind, re-executed from scratch on the real crate by the Miri interpreter (aliasing-model checks off), plus a small reference model; 16 shards"},
+  {"name": "mwalk", "path": "harnessm", "serves_properties": ["C01", "C08"], "kind_free_text": "every operation sequence up to depth 3/5 over every handle kind, re-executed from scratch on the real crate by the Miri interpreter (aliasing-model checks off), plus a small reference model; 16 shards"},
   {"name": "typex-api", "path": "lib/typex.py", "serves_properties": ["C01", "C03", "C04", "C06", "C08", "C09", "C10", "C12", "C15"], "kind_free_text": "generated client functions that rustc must reject because a bound, receiver or by-value parameter of the real API forbids them, each with a positive control"},
   {"name": "m32", "path": "harness32", "serves_properties": ["C05"], "kind_free_text": "the C05 overflow-boundary and layout grids on the real crate compiled for i686 and executed by the Miri interpreter (usize = 32 bits), 16 shards"},
   {"name": "loomx", "path": "harness/loomx", "serves_properties": ["C02", "C03", "C04", "C08", "C09", "C17"], "kind_free_text": "loom 0.7.2 stateless exploration of thread programs on the real crate through the cfg(triomphe_verif) atomic shim"},
@@ -86,6 +86,9 @@ for p in props:
         if pid == "C04":
             eng += "+loomx"
             tech += "; loom exploration of threads cloning through a shared reference to one handle (final count == handles left)"
+        if pid == "C08":
+            eng += "+mwalk"
+            tech += "; every operation sequence up to depth 3/4 over every handle kind re-executed under the Miri interpreter for a 32-bit target (i686)"
         if pid == "C01":
             eng += "+mwalk"
             tech += "; every operation sequence up to depth 3/5 over every handle kind re-executed under the Miri interpreter"
